@@ -11,29 +11,44 @@
 (* change the store; apply_transform edits parameters (transform, and the  *)
 (* dimensions for similarity maps) or refuses; copy builds a new primitive *)
 (* from the current parameters.                                            *)
+(* A bystander primitive built from the same constructor arguments is      *)
+(* never edited: reading it (ReadOther) must give the mesh and parameters  *)
+(* of its version 0 whatever was done to the first primitive.              *)
 (***************************************************************************)
 EXTENDS Integers, Sequences, FiniteSets, TLC, Json
 
-CONSTANTS Params, TransformClasses, MaxDepth
-VARIABLES pver, meshFor, idcur, onCopy, last, hist
-vars == <<pver, meshFor, idcur, onCopy, last, hist>>
+CONSTANTS Params, TransformClasses, MaxDepth, TwoObjects
+\* A second primitive of the same class lives next to the first one (both built with the same constructor
+\* arguments): nothing done to the first is an edit of the second, whose parameter version therefore stays 0.
+\*   omeshFor / oidcur   memoised mesh and cache id of the bystander
+VARIABLES pver, meshFor, idcur, onCopy, last, hist, omeshFor, oidcur
+vars == <<pver, meshFor, idcur, onCopy, last, hist, omeshFor, oidcur>>
+OVER == 0    \* parameter version of the bystander: never edited
 Log(r) == hist' = Append(hist, r)
 
-Init == pver = 0 /\ meshFor = -1 /\ idcur = -1 /\ onCopy = FALSE /\ last = <<>> /\ hist = <<>>
+Init == pver = 0 /\ meshFor = -1 /\ idcur = -1 /\ onCopy = FALSE /\ last = <<>> /\ hist = <<>> /\ omeshFor = -1 /\ oidcur = -1
 
-SetParam(p) == /\ pver' = pver + 1 /\ UNCHANGED <<meshFor, idcur, onCopy>> /\ last' = <<>>
+SetParam(p) == /\ pver' = pver + 1 /\ UNCHANGED <<meshFor, idcur, onCopy, omeshFor, oidcur>> /\ last' = <<>>
                /\ Log([op |-> "set", p |-> p])
-ApplyTransform(c) == /\ pver' = pver + 1 /\ UNCHANGED <<meshFor, idcur, onCopy>> /\ last' = <<>>
+ApplyTransform(c) == /\ pver' = pver + 1 /\ UNCHANGED <<meshFor, idcur, onCopy, omeshFor, oidcur>> /\ last' = <<>>
                      /\ Log([op |-> "transform", c |-> c])
 \* any read of the mesh or of a derived value: verify, build when absent
 Read(what) == /\ LET stale == idcur # pver
                      mf == IF stale \/ meshFor = -1 THEN pver ELSE meshFor
                  IN /\ meshFor' = mf /\ idcur' = pver
                     /\ last' = [what |-> what, mesh |-> mf, params |-> pver]
-              /\ UNCHANGED <<pver, onCopy>>
+              /\ UNCHANGED <<pver, onCopy, omeshFor, oidcur>>
               /\ Log([op |-> "read", what |-> what])
+\* read the bystander (mesh, bounds, volume and its parameters): they are those of version OVER, whatever
+\* happened to the first primitive in between
+ReadOther == /\ LET stale == oidcur # OVER
+                    mf == IF stale \/ omeshFor = -1 THEN OVER ELSE omeshFor
+                IN /\ omeshFor' = mf /\ oidcur' = OVER
+                   /\ last' = [what |-> "other", mesh |-> mf, params |-> OVER]
+             /\ UNCHANGED <<pver, meshFor, idcur, onCopy>>
+             /\ Log([op |-> "read_other"])
 \* continue the history on a copy: constructed from the current parameters, nothing memoised
-Copy == /\ ~onCopy /\ onCopy' = TRUE /\ meshFor' = -1 /\ idcur' = -1 /\ UNCHANGED pver /\ last' = <<>>
+Copy == /\ ~onCopy /\ onCopy' = TRUE /\ meshFor' = -1 /\ idcur' = -1 /\ UNCHANGED <<pver, omeshFor, oidcur>> /\ last' = <<>>
         /\ Log([op |-> "copy"])
 
 Next == /\ Len(hist) < MaxDepth
@@ -41,10 +56,11 @@ Next == /\ Len(hist) < MaxDepth
            \/ \E c \in TransformClasses : ApplyTransform(c)
            \/ \E w \in {"mesh", "volume", "bounds"} : Read(w)
            \/ Copy
+           \/ (TwoObjects /\ ReadOther)
 Spec == Init /\ [][Next]_vars
 
 MeshReflectsParameters == last # <<>> => last.mesh = last.params
-View == <<meshFor = pver, idcur = pver, meshFor = -1, onCopy, last # <<>> /\ last.mesh # last.params>>
+View == <<meshFor = pver, idcur = pver, meshFor = -1, onCopy, last # <<>> /\ last.mesh # last.params, omeshFor, oidcur>>
 EmitLeaf == (Len(hist) = MaxDepth) => PrintT(ToJson(hist))
 P3 == {"dim1", "dim2", "transform"}
 TC == {"translate", "rotate", "scale"}
